@@ -3,6 +3,8 @@ Spec/StaticSpec.lean — C16: the static inspector treats scalars, strings and b
 -/
 import InspectorModel.Lib.Static
 import InspectorModel.Spec.CmpSpec
+import InspectorModel.Spec.Conv
+import InspectorModel.Spec.CopySpec
 namespace Inspector
 
 /-- Compare: native comparison with the operand parsed for the kind (wide: int64 / uint64 / float64). -/
@@ -53,5 +55,63 @@ def staticLcAccepts (isCap : Bool) (s : Src) (o : LcOut) : Bool :=
   | .str t => if s.kind == .string then (if isCap then true else o == .val t.length) else o == .val 0
   | .bytes _ d c => if s.kind == .bytes then o == .val (if isCap then c else d.length) else o == .val 0
   | _ => o == .val 0 || o == .unsupported
+
+/-- Observation of Copy / CopyTo / Reset of the static inspector. -/
+structure SObs where
+  tag : String
+  kind : String := ""
+  shared : Nat := 0
+  v : Val := .nilptr
+
+def sobsOf : SCopy → SObs
+  | .ok k v => { tag := "ok", kind := (if k == .bytes then "bytes" else k.name), v := v }
+  | .unsupported => { tag := "unsupported" }
+  | .mustPointer => { tag := "mustpointer" }
+  | .panic => { tag := "panic" }
+
+/-- Copy: an equal value of the same kind sharing no bytes with the original; any other type is unsupported. -/
+def staticCopyAccepts (s : Src) (o : SObs) : Bool :=
+  if s.kind == .foreign then o.tag == "unsupported"
+  else if s.v.isNilPtr then true
+  else o.tag == "ok" && o.shared == 0 && valContentEq o.v s.v && o.kind == (if s.kind == .bytes then "bytes" else s.kind.name)
+
+/-- What CopyTo is observed to do, destination described by the harness tokens `dk` / `dform` ("v", "p", "pn"). -/
+def staticCopyToObs (c : LibCfg) (s : Src) (dkind : DynKind) (dk dform : String) : SObs :=
+  let r := sobsOf (staticCopyTo c s dkind (dform != "v") (dform == "pn"))
+  if r.tag == "ok" then { r with kind := dk } else r
+
+def staticCopyToAccepts (s : Src) (dkind : DynKind) (dform : String) (o : SObs) : Bool :=
+  if s.kind == .foreign then o.tag == "unsupported"
+  else if s.v.isNilPtr || dform == "pn" then true
+  else if dform == "p" && dkind == s.kind then o.tag == "ok" && o.shared == 0 && valContentEq o.v s.v
+  else o.tag == "mustpointer" || o.tag == "unsupported"
+
+/-- What Reset is observed to do (the harness cannot tell a reset nil target from an untouched value). -/
+def staticResetObs (c : LibCfg) (s : Src) : SObs :=
+  let o : SObs :=
+    if s.kind == .foreign then { tag := "okvalue" }     -- no arm: nil error, nothing happens
+    else if !s.isPtr then { tag := "okvalue" }
+    else match staticReset c s with
+      | some v => { tag := "ok", v := v }
+      | none => if s.kind == .string then { tag := "okvalue" } else { tag := "panic" }
+  if o.tag == "ok" && s.v.isNilPtr then { tag := "okvalue" } else o
+
+def staticResetAccepts (s : Src) (o : SObs) : Bool :=
+  if s.kind == .foreign then o.tag == "unsupported" || o.tag == "okvalue"
+  else if s.v.isNilPtr then true
+  else if s.isPtr then o.tag == "ok" && isEmptyV o.v
+  else o.tag != "panic"
+
+/-! Hypotheses of the C16 theorems (decidable; evaluated by the driver). -/
+
+/-- The part of `Src.wt` Length/Capacity need: a `string` operand does not carry a byte slice and vice versa. -/
+def textSrcTyped (s : Src) : Bool :=
+  match s.kind, s.v with
+  | .string, .bytes _ _ _ => false
+  | .bytes, .str _ => false
+  | _, _ => true
+
+/-- The destination forms the harness produces: value, pointer, nil pointer. -/
+def dformOK (dform : String) : Bool := dform == "v" || dform == "p" || dform == "pn"
 
 end Inspector
